@@ -55,7 +55,8 @@ def gen_config(rng, want_error=None):
                 segs[i]["start"] = new_start
                 segs[i]["start_expr"] = "segments.s%d.end" % j + (" + %d" % gap if gap else "")
     segs = implicit + segs
-    cfg = {"banks": banks, "segments": segs, "format": rng.choice([None, None, "prg", "bin"]), "output_filename": rng.choice([None, None, "out.dat"]), "entry_stem": "main"}
+    cfg = {"banks": banks, "segments": segs, "format": rng.choice([None, None, "prg", "bin"]), "output_filename": rng.choice([None, None, "out.dat"]), "entry_stem": "main",
+           "forward_consts": rng.random() < 0.25}
     # a bank may also name the default output file explicitly (it then shares that file with the banks that name nothing)
     if len(banks) >= 2:
         fmt = cfg["format"] or "bin"
@@ -104,13 +105,23 @@ def gen_config(rng, want_error=None):
 
 def render_cfg(cfg):
     lines = []
-    for b in cfg["banks"]:
+    late = []        # constants that are only defined at the end of the file (bank options whose value is unknown in the first pass)
+    for bi, b in enumerate(cfg["banks"]):
+        fwd = cfg.get("forward_consts") and bi % 2 == 0
         lines.append(".define bank {")
         lines.append('    name = "%s"' % b["name"])
         if b["size"] is not None:
-            lines.append("    size = %d" % b["size"])
+            if fwd:
+                lines.append("    size = bsz_%d" % bi)
+                late.append(".const bsz_%d = %d" % (bi, b["size"]))
+            else:
+                lines.append("    size = %d" % b["size"])
         if b["fill"] is not None:
-            lines.append("    fill = $%02x" % b["fill"])
+            if fwd:
+                lines.append("    fill = bfill_%d" % bi)
+                late.append(".const bfill_%d = $%02x" % (bi, b["fill"]))
+            else:
+                lines.append("    fill = $%02x" % b["fill"])
         if b["filename"]:
             lines.append('    filename = "%s"' % b["filename"])
         if b.get("create_segment"):
@@ -136,6 +147,7 @@ def render_cfg(cfg):
         lines.append('.segment "%s" {' % s["name"])
         lines.append("    .byte " + ", ".join("%d" % b for b in s["data"]))
         lines.append("}")
+    lines.extend(late)
     toml = "[build]\n"
     if cfg["format"]:
         toml += 'output-format = "%s"\n' % cfg["format"]
